@@ -547,6 +547,9 @@ func (w *World) TranslateFunction(fn *ssa.Function, opts VerifyOpts) (vc *FuncVC
 		for _, r := range spec.Reveal {
 			vc.reveal[r] = true
 		}
+		for _, r := range spec.Hide {
+			vc.hide[r] = true
+		}
 	}
 	t.ctx = w.ctxFor(pkgPath, file)
 	t.run()
